@@ -161,6 +161,27 @@ def partial_evaluation(S):
             S.ensure(f"frame-given-unchanged#{tag}", frame.diff(before_g, frame.snap(given)) is None)
 
 
+@scenario("C14", [UF + ".__init__", UF + "._set_input_args_for_function"], configs=["same-lambda-different-defaults"], name="closures_from_one_expression_keep_their_own_defaults")
+@scenario("C13", [UF + ".__init__", UF + "._set_input_args_for_function"], configs=["same-lambda-different-defaults"])
+def closures_from_one_expression_keep_their_own_defaults(S):
+    """history: two functions created by evaluating the SAME lambda expression (they share one __code__ object) with
+    DIFFERENT default values -- `lambda x, c=c: ...` in a loop -- are wrapped one after the other: each wrapper has the
+    defaults of its own function, and calling it binds that function's default (no memory of earlier wrappers)."""
+    d1, d2 = S.opaque("c_of_the_first"), S.opaque("c_of_the_second")
+    f1 = UserFn("f", ["x", "c"], {"c": d1})
+    f2 = UserFn("f", ["x", "c"], {"c": d2})
+    f2.code = f1.code
+    w1 = S.new(UF, f1)
+    w2 = S.new(UF, f2)
+    S.ensure("first-wrapper-has-the-defaults-of-the-first-function", S.getattr(w1, "defaults").get("c") is d1)
+    S.ensure("second-wrapper-has-the-defaults-of-the-second-function", S.getattr(w2, "defaults").get("c") is d2)
+    xv = S.opaque("x_value")
+    S.method(w2, "__call__", {"x": xv})
+    S.ensure("second-wrapper-calls-its-own-function-with-its-own-default", len(f2.calls) == 1 and len(f1.calls) == 0 and f2.calls[0]["bound"].get("c") is d2 and f2.calls[0]["bound"].get("x") is xv)
+    S.method(w1, "__call__", {"x": xv})
+    S.ensure("first-wrapper-still-binds-its-own-default", len(f1.calls) == 1 and f1.calls[0]["bound"].get("c") is d1)
+
+
 @scenario("C13", [UF + ".__init__", UF + ".set_default"], configs=["1:0", "2:1", "3:1"], bounded=BOUND)
 def wrapping_a_wrapper_is_isolated(S):
     """post: UserFunction(w1) denotes the same function, and changing the new wrapper's defaults never changes w1"""
